@@ -14,15 +14,19 @@ PROPS = "Gql.Props.C20"
 DRIVER = "drv_c20"
 LEVEL = "proof"
 LEVEL_TEXT = (
-    "Lean theorems over all raw schemas (references may point at types of the wrong kind): validate_schema "
-    "never raises (on the repaired code; the pinned code raises TypeError on a default value at a non-input "
-    "type, witness kept), its error list is empty exactly when the specification's type-system rules hold "
-    "(rule family by rule family; the families not finished are named _partial), both circular-reference "
-    "validators terminate within a proved budget, and a request against an invalid schema returns exactly "
-    "the schema errors without executing. The model is tied to validate.py / type_comparators.py / "
-    "validate_input_value.py by a differential run over generated valid schemas, every single (quick) and "
-    "double (thorough) rule-violating mutation of them, grammar-random SDL and programmatic tweaks; the "
-    "implementation's verdict is checked against the Lean spec on every case."
+    "Lean theorems over all raw schemas (references may point at types of the wrong kind), all proved: "
+    "validate_schema never raises (on the repaired code; the pinned code raised TypeError on a default value at a "
+    "non-input type, witness kept); for every raw schema with well-formed names its error list is empty exactly "
+    "when the specification's type-system rules hold (validate_iff_spec, assembled from the rule families: roots, "
+    "names, directives, fields/arguments, default values, interfaces incl. is_type_sub_type_of = "
+    "IsValidImplementationFieldType, unions, enums, input objects/OneOf, unbreakable input cycles and default-value "
+    "cycles — for both cycle validators: depth-first search with a shared visited set reports an error iff a cycle is "
+    "reachable, and the specification's bounded algorithms decide the same graph property); both circular-reference "
+    "validators terminate within a proved budget on every raw schema; a request against an invalid schema returns "
+    "exactly the schema errors without executing. The model is tied to validate.py / type_comparators.py / "
+    "validate_input_value.py by a differential run over generated valid schemas, every single (quick) and double "
+    "(thorough) rule-violating mutation of them, grammar-random SDL and programmatic tweaks; the implementation's "
+    "verdict is checked against the Lean spec on every case."
 )
 LEVEL_NOTE = (
     "Trusted: Lean kernel; hand-written model Gql/Types/SchemaValidate.lean (tied by correspondence); the "
@@ -57,12 +61,16 @@ ASSUMPTIONS = [
     "custom scalars use the library's default literal coercion (accept every const literal)",
     "an object literal with a repeated key denotes the map in which the last entry wins",
     "NonNull(NonNull(T)) (not expressible in SDL, not checked by validate.py) is outside RawSchema",
+    "validate_iff_spec assumes well-formed names (NamesWF: no '.' in a type name, the field names of an input "
+    "object pairwise different) — guaranteed by assert_name and dict keys for every constructed schema; a decided "
+    "example shows the default-value-cycle family fails without it",
 ]
 EXPLANATION = (
-    "Theorems: no crash (repaired code) + pinned-code witness; errors = [] iff Spec.TypeSystemValid per rule "
-    "family; cycle validators terminate; invalid schema => response carries exactly the schema errors. "
-    "Correspondence: model vs validate_schema on generated/mutated/random schemas. Oracles on the "
-    "implementation: raises; verdict vs Lean spec; graphql_sync on an invalid schema; cached second call."
+    "Theorems (all proved): no crash (repaired code) + pinned-code witness; validate_iff_spec: errors = [] iff "
+    "Spec.TypeSystemValid for every raw schema with well-formed names, with every rule family as its own theorem; "
+    "cycle validators terminate; invalid schema => response carries exactly the schema errors; cache. "
+    "Correspondence: model vs validate_schema on generated/mutated/random schemas. Oracles on the implementation: "
+    "raises; verdict vs Lean spec; graphql_sync on an invalid schema; cached second call."
 )
 
 # ----------------------------------------------------------------------------- message -> (kind, subject)
